@@ -7,6 +7,7 @@ package main
 import (
 	"os"
 	"regexp"
+	"sort"
 	"strconv"
 	"strings"
 
@@ -263,6 +264,30 @@ func buildExpr(t []string) (carapace.Action, []string) {
 			as[i] = a
 		}
 		return carapace.Batch(as...).ToA(), t
+	case "SHS": // like SH, but the shared Action went through Suppress (its message map is allocated, possibly empty)
+		ns, us := t[0], t[1]
+		t = t[2:]
+		msgs := list()
+		var vals []rawSpec
+		vals, t = takeRaws(t)
+		shared := importAction(vals, msgs, ns, us).Suppress("zzz-no-such-message").Invoke(carapace.Context{}).ToA()
+		return carapace.ActionCallback(func(c carapace.Context) carapace.Action { return shared }), t
+	case "MPP": // MultiPartsP over fixed paths with placeholders; the callback consults every match it is given
+		a := sub()
+		return a.MultiPartsP("/", "<.*>", func(placeholder string, matches map[string]string) carapace.Action {
+			keys := make([]string, 0, len(matches))
+			for k, v := range matches {
+				keys = append(keys, k+"="+v)
+			}
+			sort.Strings(keys)
+			return carapace.ActionValues(strings.Trim(placeholder, "<>") + "1", strings.Join(keys, "+")+"_")
+		}), t
+	case "LET": // bind one Action value (appended to the pool) for the body: sharing by reference
+		bound := sub()
+		curPool = append(curPool, bound)
+		body := sub()
+		curPool = curPool[:len(curPool)-1]
+		return body, t
 	case "REF":
 		i := atoi(t[0])
 		return curPool[i], t[1:]
